@@ -95,7 +95,8 @@ StreamsManagerBase<MAX_STREAMS> {
         };
         let keep_streams_running = unsafe { &mut * self.keep_streams_running.get() };
         #[cfg(feature = "verif")]
-        crate::verif::yield_value("keep_write", &keep_streams_running[stream_id as usize] as *const bool as usize, 1);
+        crate::verif::yield_value("keep_write", &keep_streams_running[stream_id as usize] as *const bool as usize,
+                                  || 1);
         keep_streams_running[stream_id as usize] = true;
         self.sync_vacant_and_used_streams();
         stream_id
@@ -107,7 +108,7 @@ StreamsManagerBase<MAX_STREAMS> {
         let wakers = unsafe { &* self.wakers.get() };
         #[cfg(feature = "verif")]
         crate::verif::yield_value("wakers_read", unsafe {wakers.get_unchecked(stream_id as usize)} as *const Option<Waker> as usize,
-                                  unsafe {wakers.get_unchecked(stream_id as usize)}.is_some() as u64);
+                                  || unsafe {wakers.get_unchecked(stream_id as usize)}.is_some() as u64);
         match unsafe {wakers.get_unchecked(stream_id as usize)} {
             Some(waker) => waker.wake_by_ref(),
             None => {
@@ -115,7 +116,7 @@ StreamsManagerBase<MAX_STREAMS> {
                 ogre_sync::lock(&self.wakers_lock);
                 #[cfg(feature = "verif")]
                 crate::verif::yield_value("wakers_read", unsafe {wakers.get_unchecked(stream_id as usize)} as *const Option<Waker> as usize,
-                                          unsafe {wakers.get_unchecked(stream_id as usize)}.is_some() as u64);
+                                  || unsafe {wakers.get_unchecked(stream_id as usize)}.is_some() as u64);
                 if let Some(waker) = unsafe {wakers.get_unchecked(stream_id as usize)} {
                     waker.wake_by_ref();
                 }
@@ -141,7 +142,7 @@ StreamsManagerBase<MAX_STREAMS> {
             let keep_streams_running = &* self.keep_streams_running.get();
             #[cfg(feature = "verif")]
             crate::verif::yield_value("keep_read", keep_streams_running.get_unchecked(stream_id as usize) as *const bool as usize,
-                                      *keep_streams_running.get_unchecked(stream_id as usize) as u64);
+                                  || *keep_streams_running.get_unchecked(stream_id as usize) as u64);
             *keep_streams_running.get_unchecked(stream_id as usize)
         }
     }
@@ -165,7 +166,8 @@ StreamsManagerBase<MAX_STREAMS> {
     pub fn cancel_stream(&self, stream_id: u32) {
         let keep_streams_running = unsafe { &mut * self.keep_streams_running.get() };
         #[cfg(feature = "verif")]
-        crate::verif::yield_value("keep_write", &keep_streams_running[stream_id as usize] as *const bool as usize, 0);
+        crate::verif::yield_value("keep_write", &keep_streams_running[stream_id as usize] as *const bool as usize,
+                                  || 0);
         keep_streams_running[stream_id as usize] = false;
         self.wake_stream(stream_id);
     }
@@ -176,7 +178,8 @@ StreamsManagerBase<MAX_STREAMS> {
         let used_streams = unsafe { &* self.used_streams.get() };
         for stream_id in used_streams.iter() {
             #[cfg(feature = "verif")]
-            crate::verif::yield_value("used_read", stream_id as *const u32 as usize, *stream_id as u64);
+            crate::verif::yield_value("used_read", stream_id as *const u32 as usize,
+                                  || *stream_id as u64);
             if *stream_id == u32::MAX {
                 break
             }
@@ -194,7 +197,8 @@ StreamsManagerBase<MAX_STREAMS> {
                 let waker = waker.clone();
                 ogre_sync::lock(&self.wakers_lock);
                 #[cfg(feature = "verif")]
-                crate::verif::yield_value("wakers_write", unsafe { wakers.get_unchecked_mut(stream_id as usize) } as *const Option<Waker> as usize, 1);
+                crate::verif::yield_value("wakers_write", unsafe { wakers.get_unchecked_mut(stream_id as usize) } as *const Option<Waker> as usize,
+                                  || 1);
                 let waker = unsafe { wakers.get_unchecked_mut(stream_id as usize).insert(waker) };
                 ogre_sync::unlock(&self.wakers_lock);
                 // the producer might have just woken the old version of the waker,
@@ -206,7 +210,7 @@ StreamsManagerBase<MAX_STREAMS> {
 
         #[cfg(feature = "verif")]
         crate::verif::yield_value("wakers_read", unsafe { wakers.get_unchecked_mut(stream_id as usize) } as *const Option<Waker> as usize,
-                                  unsafe { wakers.get_unchecked_mut(stream_id as usize) }.is_some() as u64);
+                                  || unsafe { wakers.get_unchecked_mut(stream_id as usize) }.is_some() as u64);
         match unsafe { wakers.get_unchecked_mut(stream_id as usize) } {
             Some(registered_waker) => {
                 if !registered_waker.will_wake(waker) {
@@ -233,7 +237,8 @@ StreamsManagerBase<MAX_STREAMS> {
         let wakers = unsafe { &mut * self.wakers.get() };
         ogre_sync::lock(&self.wakers_lock);
         #[cfg(feature = "verif")]
-        crate::verif::yield_value("wakers_write", &wakers[stream_id as usize] as *const Option<Waker> as usize, 0);
+        crate::verif::yield_value("wakers_write", &wakers[stream_id as usize] as *const Option<Waker> as usize,
+                                  || 0);
         wakers[stream_id as usize] = None;
         ogre_sync::unlock(&self.wakers_lock);
         self.finished_streams_count.fetch_add(1, Relaxed);
@@ -265,7 +270,8 @@ StreamsManagerBase<MAX_STREAMS> {
                     for used_stream_id in i .. *next_vacant_stream_id {
                         last_used_stream_id += 1;
                         #[cfg(feature = "verif")]
-                        crate::verif::yield_value("used_write", unsafe { used_streams.get_unchecked_mut(last_used_stream_id as usize) } as *const u32 as usize, used_stream_id as u64);
+                        crate::verif::yield_value("used_write", unsafe { used_streams.get_unchecked_mut(last_used_stream_id as usize) } as *const u32 as usize,
+                                  || used_stream_id as u64);
                         unsafe { *used_streams.get_unchecked_mut(last_used_stream_id as usize)  = used_stream_id };
                     }
                     i = *next_vacant_stream_id + 1;
@@ -273,7 +279,8 @@ StreamsManagerBase<MAX_STREAMS> {
                 None => {
                     last_used_stream_id += 1;
                     #[cfg(feature = "verif")]
-                    crate::verif::yield_value("used_write", unsafe { used_streams.get_unchecked_mut(last_used_stream_id as usize) } as *const u32 as usize, i as u64);
+                    crate::verif::yield_value("used_write", unsafe { used_streams.get_unchecked_mut(last_used_stream_id as usize) } as *const u32 as usize,
+                                  || i as u64);
                     unsafe { *used_streams.get_unchecked_mut(last_used_stream_id as usize) = i };
                     i += 1;
                 }
@@ -281,7 +288,8 @@ StreamsManagerBase<MAX_STREAMS> {
         }
         for i in (last_used_stream_id + 1) as usize .. MAX_STREAMS {
             #[cfg(feature = "verif")]
-            crate::verif::yield_value("used_write", unsafe { used_streams.get_unchecked_mut(i) } as *const u32 as usize, u32::MAX as u64);
+            crate::verif::yield_value("used_write", unsafe { used_streams.get_unchecked_mut(i) } as *const u32 as usize,
+                                  || u32::MAX as u64);
             unsafe { *used_streams.get_unchecked_mut(i) = u32::MAX };
         }
         ogre_sync::unlock(&self.streams_lock);
